@@ -362,11 +362,7 @@ def make_loader(
     loader = file_loader
     if additional_protocol_loaders is not None:
         loader = ProtocolLoader(
-            handlers={
-                kv
-                for ll in [[("file", file_reader)], additional_protocol_loaders.items()]
-                for kv in ll
-            },
+            protocol_handlers={"file": file_loader, **additional_protocol_loaders},
             default_protocol="file",
         )
 
